@@ -449,3 +449,135 @@ Lemma mdotm_separate_ok :
   let a := new_mat 0 2 2 in let b := new_mat 1 2 2 in let r := new_mat 2 2 2 in
   result_of false H r a b = Some (prod_of H a b).
 Proof. vm_compute. reflexivity. Qed.
+
+(* ---------------------------------------------------------------- element-wise matrix operations *)
+(* MaddM / MsubM / MmulM ([mEw]): one row-major sweep, read a(i,j), b(i,j), write r(i,j).
+   Alias-safe when every operand is the receiver's own view (identical header) or lives in
+   another backing array. *)
+Lemma in_positions n m i j : In (i, j) (positions n m) <-> 0 <= i < n /\ 0 <= j < m.
+Proof.
+  unfold positions. rewrite in_flat_map. split.
+  - intros [x [Hx Hin]]. apply in_map_iff in Hin. destruct Hin as [y [E Hy]]. inversion E; subst.
+    apply in_zseq in Hx, Hy. lia.
+  - intros [Hi Hj]. exists i. split; [apply in_zseq; lia|]. apply in_map_iff. exists j. split; [reflexivity|apply in_zseq; lia].
+Qed.
+Lemma NoDup_app_disj {X} (a b : list X) :
+  NoDup a -> NoDup b -> (forall x, In x a -> ~ In x b) -> NoDup (a ++ b).
+Proof.
+  induction 1 as [|x a Hx Ha IH]; intros Hb Hd; simpl; auto.
+  constructor.
+  - rewrite in_app_iff. intros [H|H]; [contradiction|]. apply (Hd x); simpl; auto.
+  - apply IH; auto. intros y Hy. apply Hd. simpl; auto.
+Qed.
+Lemma NoDup_positions n m : NoDup (positions n m).
+Proof.
+  unfold positions.
+  assert (G : forall l, NoDup l -> NoDup (flat_map (fun i : Z => map (fun j : Z => (i, j)) (zseq m)) l)).
+  { induction 1 as [|x l Hx Hl IH]; simpl; [constructor|].
+    apply NoDup_app_disj; [| exact IH |].
+    - apply Injective_map_NoDup; [|apply NoDup_zseq]. intros p q E. inversion E. reflexivity.
+    - intros [p q] Hin Hin2. apply in_map_iff in Hin. destruct Hin as [y [E _]]. inversion E; subst.
+      apply in_flat_map in Hin2. destruct Hin2 as [k [Hk Hin2]].
+      apply in_map_iff in Hin2. destruct Hin2 as [w [E2 _]]. inversion E2; subst. contradiction. }
+  apply G, NoDup_zseq.
+Qed.
+
+Definition opd_ok (H : heap) (r x : mat) : Prop :=
+  x = r \/ (wfh H x /\ d_values x <> d_values r /\ d_rows x = d_rows r /\ d_cols x = d_cols r).
+
+Section Ewm.
+Variables (real : bool) (f : Z) (r a b : mat) (H0 : heap).
+Hypothesis Wr : wfh H0 r.
+Hypothesis Oa : opd_ok H0 r a.
+Hypothesis Ob : opd_ok H0 r b.
+
+Definition eres (p : Z * Z) : Z := ew_fun f (cell H0 a (fst p) (snd p)) (cell H0 b (fst p) (snd p)).
+Definition estep (H : heap) (p : Z * Z) : heap :=
+  wr H r (fst p) (snd p) (ew_fun f (cell H a (fst p) (snd p)) (cell H b (fst p) (snd p))).
+
+Lemma opd_wfh H x : (forall m', wfh H0 m' -> wfh H m') -> opd_ok H0 r x -> wfh H x.
+Proof. intros K [->|[W _]]; apply K; assumption. Qed.
+Lemma opd_range x i j : opd_ok H0 r x -> in_range r i j -> in_range x i j.
+Proof. intros [->|(_ & _ & E1 & E2)] Hr; [exact Hr|]. unfold in_range in *. rewrite E1, E2. exact Hr. Qed.
+Lemma cell_wr_opd H x i j v i' j' : wfh H r -> opd_ok H0 r x -> in_range r i j -> in_range r i' j' -> (i, j) <> (i', j') ->
+  cell (wr H r i j v) x i' j' = cell H x i' j'.
+Proof.
+  intros W [->|(_ & L & _)] Hr Hr' Hne.
+  - rewrite cell_wr_same by assumption.
+    destruct ((i =? i') && (j =? j')) eqn:E; [|reflexivity].
+    apply andb_prop in E. destruct E as [E1 E2]. apply Z.eqb_eq in E1, E2. congruence.
+  - apply cell_wr_other. exact L.
+Qed.
+
+Lemma ew_loop : forall ps H, NoDup ps -> (forall p, In p ps -> in_range r (fst p) (snd p)) ->
+  wfh H r -> (forall m', wfh H0 m' -> wfh H m') ->
+  (forall p, In p ps -> cell H a (fst p) (snd p) = cell H0 a (fst p) (snd p) /\ cell H b (fst p) (snd p) = cell H0 b (fst p) (snd p)) ->
+  let H' := fold_left estep ps H in
+  wfh H' r /\ (forall m', wfh H0 m' -> wfh H' m') /\
+  (forall l, l <> d_values r -> store_of H' l = store_of H l) /\
+  (forall p, In p ps -> cell H' r (fst p) (snd p) = eres p) /\
+  (forall i j, in_range r i j -> ~ In (i, j) ps -> cell H' r i j = cell H r i j).
+Proof.
+  induction ps as [|[i j] ps IH]; intros H Hnd Hb W K Hc; cbv zeta; simpl.
+  - split; [exact W|]. split; [exact K|]. split; [reflexivity|]. split; [intros p []|reflexivity].
+  - apply NoDup_cons_iff in Hnd. destruct Hnd as [Hnin Hnd].
+    assert (Hr : in_range r i j) by (apply (Hb (i, j)); left; reflexivity).
+    set (H1 := estep H (i, j)).
+    assert (L : (d_values r < length H)%nat) by apply W.
+    assert (W1 : wfh H1 r) by (apply wfh_wr; assumption).
+    assert (K1 : forall m', wfh H0 m' -> wfh H1 m') by (intros m' Wm; apply wfh_wr; [exact L|apply K; exact Wm]).
+    destruct (IH H1 Hnd) as [A1 [A2 [A3 [A4 A5]]]]; auto.
+    { intros p Hp. apply Hb. right; exact Hp. }
+    { intros [i' j'] Hp. simpl. assert (Hr' : in_range r i' j') by (apply (Hb (i', j')); right; exact Hp).
+      assert (Hne : (i, j) <> (i', j')) by (intro E; inversion E; subst; contradiction).
+      unfold H1, estep. simpl. rewrite !cell_wr_opd by assumption. apply (Hc (i', j')). right; exact Hp. }
+    cbv zeta in *.
+    split; [exact A1|]. split; [exact A2|].
+    split; [intros l Hl; rewrite A3 by exact Hl; apply store_wr_other; exact Hl|].
+    split.
+    + intros p [E|Hp]; [|apply A4; exact Hp]. subst p. simpl.
+      rewrite A5 by assumption. unfold H1, estep. simpl.
+      rewrite cell_wr_same by assumption. rewrite !Z.eqb_refl. simpl. unfold eres. simpl.
+      destruct (Hc (i, j)) as [Ca Cb]; [left; reflexivity|]. simpl in Ca, Cb. rewrite Ca, Cb. reflexivity.
+    + intros i' j' Hr' Hn. rewrite A5; [|exact Hr'|intro Hp; apply Hn; right; exact Hp].
+      unfold H1, estep. simpl. rewrite cell_wr_same by assumption.
+      destruct ((i =? i') && (j =? j')) eqn:E; [|reflexivity].
+      apply andb_prop in E. destruct E as [E1 E2]. apply Z.eqb_eq in E1, E2. subst. exfalso. apply Hn. left; reflexivity.
+Qed.
+
+Theorem mew_alias_safe :
+  exists H', mEw real f H0 r a b = ROk H' /\
+    (forall i j, in_range r i j -> mAT real H' r i j = ROk (ew_fun f (cell H0 a i j) (cell H0 b i j))) /\
+    (forall l, l <> d_values r -> store_of H' l = store_of H0 l).
+Proof.
+  unfold mEw.
+  assert (Ed : forall m : mat, k_dims real m = (d_rows m, d_cols m)) by (intro m; destruct real; reflexivity).
+  assert (Dx : forall x, opd_ok H0 r x -> dims_eq real r x = true).
+  { intros x Hx. unfold dims_eq. rewrite !Ed. destruct Hx as [->|(_ & _ & E1 & E2)]; [|rewrite E1, E2]; rewrite !Z.eqb_refl; reflexivity. }
+  rewrite (Dx a Oa), (Dx b Ob). simpl.
+  unfold mpos. rewrite Ed.
+  destruct (foldR_ok (fun H => wfh H r /\ forall m', wfh H0 m' -> wfh H m')
+              (fun H p => _ <- idx real r (fst p) (snd p) ;; x <- mAT real H a (fst p) (snd p) ;;
+                          y <- mAT real H b (fst p) (snd p) ;; mSET real H r (fst p) (snd p) (ew_fun f x y))
+              estep (positions (d_rows r) (d_cols r))) with (s := H0) as [E _]; auto.
+  { intros H [i j] Hp [W K]. apply in_positions in Hp. assert (Hr : in_range r i j) by exact Hp. simpl.
+    unfold idx. rewrite (k_index_some real r i j Hr). simpl.
+    rewrite (mAT_ok real H a i j) by (auto using opd_wfh, opd_range). simpl.
+    rewrite (mAT_ok real H b i j) by (auto using opd_wfh, opd_range). simpl.
+    split; [apply mSET_ok; assumption|].
+    assert (L : (d_values r < length H)%nat) by apply W.
+    split; [apply wfh_wr; assumption|]. intros m' Wm. apply wfh_wr; [exact L|apply K; exact Wm]. }
+  rewrite E.
+  destruct (ew_loop (positions (d_rows r) (d_cols r)) H0) as [A1 [A2 [A3 [A4 A5]]]]; auto using NoDup_positions.
+  { intros [i j] Hp. apply in_positions in Hp. exact Hp. }
+  cbv zeta in *. eexists. split; [reflexivity|]. split.
+  - intros i j Hr. rewrite mAT_ok by assumption. f_equal. apply (A4 (i, j)). apply in_positions. exact Hr.
+  - exact A3.
+Qed.
+End Ewm.
+
+(* a transposed view of an operand as receiver: wrong (decided by the model) *)
+Lemma mew_transposed_refuted :
+  let H := [[1; 2; 3; 4]; [0; 0; 0; 0]] in let a := new_mat 0 2 2 in let r := k_T false a in let b := new_mat 1 2 2 in
+  exists H', mEw false 0 H r a b = ROk H' /\ read_all false H' r = ROk [1; 2; 2; 4].
+Proof. vm_compute. eexists. split; reflexivity. Qed.
